@@ -23,13 +23,13 @@ def writer_sequences(run, rng):
     """(ctor encoding, calls, origin) for C01/C02."""
     quick = run.tier == 'quick'
     out = []
-    behs = wgen.accepted_paths(run, rng, 5 if quick else 7, 1 if quick else 2, 1)
+    behs = wgen.accepted_paths(run, rng, 5 if quick else 7, 1, 0)
     if quick and len(behs) > 900:
         behs = rng.sample(behs, 900)
     if not quick and len(behs) > 12000:
         behs = rng.sample(behs, 12000)
     for b in behs:
-        out.append((rng.choice(pools.CTOR_ENCODINGS), wgen.conc(b, rng), 'exhaustive-path'))
+        out.append((rng.choice(pools.CTOR_ENCODINGS), wgen.conc(b, rng, vary=True), 'exhaustive-path'))
     for calls in wgen.one_section_product(rng, quick):
         out.append((rng.choice(['utf-8', 'utf-8', 'utf-16', 'latin-1']), calls, 'one-section-product'))
     ws = wgen.walks(run, rng, 300 if quick else 8000, 12 if quick else 30, 2 if quick else 6)
